@@ -21,7 +21,10 @@
     neighbours, same-seed repeats of projects with equally named types / inherited generic bindings / internal
     procedures (object ids vary from process to process); recursive byte comparison; ANY difference is a
     VIOLATION.
-(c) findings: the one open finding is replayed (KNOWN-FINDING line); the witnesses of the fixed findings are
+(c) the process pool (pool): graph: true with graph_dir set, parallel in {0, 2, 3, 8} on generated projects whose
+    number of graph tasks exceeds and is not a multiple of the worker counts; the full trees (doc/ and the graph
+    directory) must equal those of parallel: 0; a missing or extra file is a failing input.
+(d) findings: the one open finding is replayed (KNOWN-FINDING line); the witnesses of the fixed findings are
     regression inputs.
 """
 import itertools
@@ -107,7 +110,7 @@ def perms_for(rng, n, tier):
     allp = [list(p) for p in itertools.permutations(base)][1:]
     if tier == "thorough" and n <= 4:
         return allp
-    k = 3 if tier == "quick" else 30
+    k = 2 if tier == "quick" else 30
     picks = [base[::-1]] if n > 1 else []
     rest = [p for p in allp if p not in picks]
     rng.shuffle(rest)
@@ -630,7 +633,7 @@ def findings(chk, rng):
          {"graph": "true", "graph_maxnodes": "3"}, list(range(1, 6)), None),
     ]
     with ThreadPoolExecutor(max_workers=8) as ex:
-        outcomes = list(ex.map(lambda c: differ(c[1], c[2], c[3], 6 if quick else 8), checks))
+        outcomes = list(ex.map(lambda c: differ(c[1], c[2], c[3], 5 if quick else 8), checks))
         pool_run = ex.submit(R.subprocess_run, WIT_KIDS,
                              {"graph": "true", "graph_dir": "./graphs", "parallel": "2"}, 1)
         rc, out, tree, _ = pool_run.result()
@@ -659,6 +662,90 @@ def findings(chk, rng):
                                             "first_difference": cl[1]}, True)
 
 
+# ----------------------------------------------------------------------------- the process pool
+
+PARALLEL = ("0", "2", "3", "8")
+
+
+def graph_tasks(files):
+    """the number of tasks GraphManager.output_graphs hands to the pool (one per registered entity), estimated on
+    an in-process parse: it must exceed the number of workers and leave a remainder to exercise every worker count"""
+    try:
+        with F.Work(files) as w:
+            p = F.parse_project(w.root, graph=True)
+            return sum(len(getattr(p, a)) for a in ("modules", "submodules", "types", "procedures",
+                                                     "submodprocedures", "programs", "files", "blockdata"))
+    except Exception:  # noqa
+        return None
+
+
+def pool(chk, rng):
+    """'regardless of the number of worker processes': graph: true with graph_dir set, parallel in {0, 2, 3, 8};
+    the FULL trees (doc/ and the graph directory) must be byte-identical to those of parallel: 0 - a missing or
+    extra file is a failing input"""
+    quick = chk.tier == "quick"
+    projects = []
+    want = 3 if quick else 8
+    tries = 0
+    while len(projects) < want and tries < 40:
+        tries += 1
+        if tries % 3 == 0:
+            files, meta = P.gen_shapes(rng)
+        else:
+            files, meta = P.gen(rng, nfiles=rng.choice([3, 4, 5]), clash=rng.random() < 0.5, multiuse=True,
+                                children=rng.random() < 0.5)
+        n = graph_tasks(files)
+        # more tasks than any worker count, and a remainder for each of 2, 3, 8 (prefer; accept others late)
+        good = n is not None and n > 8 and n % 2 and n % 3 and n % 8
+        if good or (tries > 25 and n and n > 8):
+            projects.append((files, meta, n))
+    chk.extra["pool_projects_graph_tasks"] = [n for _, _, n in projects]
+
+    def one(entry):
+        files, meta, n = entry
+        opts = {"graph": "true", "graph_dir": "./graphs", "search": "false", "proc_internals": "true"}
+        out = []
+        with F.Work() as w:
+            pd = R.ProjectDir(w.root, "p", files)
+            for par in PARALLEL:
+                o = dict(opts, parallel=par)
+                rc, log, tree, extra = pd.run(o, 5, keep=("graphs",))
+                out.append((par, o, rc, log, tree, extra["graphs"]))
+        return out
+    with ThreadPoolExecutor(max_workers=4) as ex:
+        results = list(ex.map(one, projects))
+    nruns = 0
+    for (files, meta, n), runs in zip(projects, results):
+        par0, o0, rc0, log0, tree0, gr0 = runs[0]
+        if rc0 != 0:
+            chk.notes.append(f"pool: FORD failed with parallel 0: {log0[-300:]}")
+            chk.count(("pool-invalid", n), nontrivial=False)
+            continue
+        for par, o, rc, log, tree, gr in runs[1:]:
+            nruns += 1
+            chk.count(("pool", tuple(sorted(files)), par),
+                      sample={"project": sorted(files), "graph_tasks": n, "parallel": par,
+                              "files_in_graph_dir": len(gr), "files_in_graph_dir_parallel_0": len(gr0)})
+            payload = {"run": "pool", "seeds": [5, 5], "options": o, "reference_options": o0, "graph_tasks": n,
+                       "flags": meta, "files": files}
+            if rc != 0:
+                chk.violation("failing-input", dict(payload, what=f"parallel: {par} fails where parallel: 0 succeeds",
+                                                    log=log[-1500:]), True)
+                continue
+            for name, a, b in (("the graph directory", gr0, gr), ("doc/", tree0, tree)):
+                cl = R.classify(a, b)
+                if cl is not None:
+                    chk.disagreements += 1
+                    chk.violation("failing-input",
+                                  dict(payload, what=f"parallel: {par} and parallel: 0 write different trees "
+                                                     f"({name}): the output depends on the number of worker processes",
+                                       tree=name, first_difference=cl[1],
+                                       only_with_parallel_0=sorted(set(a) - set(b))[:10],
+                                       only_with_this_parallel=sorted(set(b) - set(a))[:10]), True)
+                    break
+    chk.extra["pool_runs"] = nruns
+
+
 def run(chk):
     chk.build(["theories/Corr/C12.vo", "theories/Props/C12.vo"])
     chk.props("theories/Props/C12.v", THEOREMS)
@@ -674,6 +761,9 @@ def run(chk):
     t = time.time()
     e2e(chk, rng)
     chk.extra["t_e2e_s"] = round(time.time() - t, 1)
+    t = time.time()
+    pool(chk, rng)
+    chk.extra["t_pool_s"] = round(time.time() - t, 1)
     t = time.time()
     findings(chk, rng)
     chk.extra["t_findings_s"] = round(time.time() - t, 1)
@@ -706,12 +796,15 @@ def replay(chk, rep):
     stale = rep.get("stale")
     if stale == "other":
         stale = R.subprocess_run(P.other_project(None), {}, 1)[2]
+    keep = ("graphs",) if "graph_dir" in opts else ()
     with F.Work() as w:
         pd = R.ProjectDir(w.root, "p", files)
-        ref = pd.run(rep.get("reference_options") or opts, seeds[0])
+        ref = pd.run(rep.get("reference_options") or opts, seeds[0], keep=keep)
         where = R.ProjectDir(w.root / MOVED, "p", files) if rep.get("run") == "location" else pd
-        oth = where.run(opts, seeds[1], stale=stale)
+        oth = where.run(opts, seeds[1], stale=stale, keep=keep)
     cl = R.classify(mask(ref[2], opts), mask(oth[2], opts), set(rep.get("applicable_findings") or []))
+    if cl is None and keep:
+        cl = R.classify(ref[3]["graphs"], oth[3]["graphs"])
     print("return codes:", ref[0], oth[0])
     print("difference:", "none" if cl is None else cl)
     return 1 if (cl is not None and cl[0] is None) or ref[0] != oth[0] else 0
